@@ -51,6 +51,7 @@ type Ctx struct {
 	rulesDoc    []string
 	funcsSeen   map[string]bool
 	fatal       []string // UNDECIDED / ANCHOR-UNRESOLVED
+	packagesExtra int    // packages parsed (syntax only) by a whole-module who-may-call rule
 }
 
 func newCtx(prop, tier string) *Ctx {
@@ -272,6 +273,13 @@ func (c *Ctx) ob(rule, key string, p token.Pos, ok bool, msg string) {
 	c.counts[rule]++
 }
 
+// obAt: obligation with an already formatted position (rules that parse with their own file set).
+func (c *Ctx) obAt(rule, key, pos string, ok bool, msg string) {
+	key = cleanKey(key)
+	c.obs = append(c.obs, Ob{Rule: rule, Key: key, Pos: pos, OK: ok, Msg: msg})
+	c.counts[rule]++
+}
+
 func (c *Ctx) xref(rule, key string, p token.Pos, ok bool, msg string) {
 	key = cleanKey(key)
 	c.obs = append(c.obs, Ob{Rule: rule, Key: key, Pos: c.pos(p), OK: ok, Msg: msg, XRef: true})
@@ -428,6 +436,9 @@ func (c *Ctx) finish(level, explanation string) int {
 		pkgsAnalysed = append(pkgsAnalysed, relName(p))
 	}
 	sort.Strings(pkgsAnalysed)
+	if c.packagesExtra > 0 {
+		pkgsAnalysed = append(pkgsAnalysed, fmt.Sprintf("./... (%d packages, syntax only, for the who-may-call rule)", c.packagesExtra))
+	}
 	var funcs []string
 	for f := range c.funcsSeen {
 		funcs = append(funcs, relName(f))
